@@ -383,7 +383,7 @@ fn classify_flat(q: &QSpec, got: &[SignedEntry], want: &[SignedEntry]) -> String
 pub fn run(ctx: &mut Ctx) {
     let scratch = Scratch::new();
     let per_state = if ctx.is_quick() { 250 } else { 600 };
-    for case in ctx.cases(60, 20_000) {
+    for case in ctx.cases(400, 40_000) {
         let mut rng = ctx.rng(case);
         let backend = if rng.chance(1, 8) { Backend::File } else { Backend::Memory };
         let (mut store, _p) = new_store(backend, &scratch);
